@@ -1068,6 +1068,10 @@ class PEval(Folder):
                 return some(args[0])
             if ap in ("std::result::Result", "core::result::Result") and vn in ("Ok", "Err") and len(args) == 1:
                 return ("adt", "std::result::Result", 0 if vn == "Ok" else 1, vn, (args[0],))
+            if ad is None and vn[:1].isupper() and not self.facts.fns.get(c[1]) and "<" not in ap.rsplit("::", 1)[-1]:
+                # a constructor of a type of another crate whose definition was not extracted: the value is known by variant name
+                # (index -1: its discriminant is unknown, so a match on it stops the evaluation)
+                return ("adt", ap, -1, vn, tuple(args))
         if callee is None:
             raise _Abort("top", "closure body %s not available" % c[1])
         depth = len(st.frames)
